@@ -6,6 +6,6 @@ PROPS["C14"] = prop(
     "Schedules are sampled from what the Go runtime produces under generated perturbation; every race-detector report, unanswered request, attachment-table asymmetry, wrong online counter, leaked goroutine, deadlock or hang is a violation.",
     "Interleavings are sampled, not enumerated; white-box reads happen at synctest quiescence; a worker killed by the race detector is recovered from the write-ahead log and replayed.",
     "5/C14", "world-race",
-    [Unit("TestC14Races", "server", race=True, quick=250, thorough=12000, shards_quick=8, shards_thorough=16, crash_is_violation=True, timeout_quick=400, timeout_thorough=7200)],
+    [Unit("TestC14Races", "server", race=True, quick=250, thorough=12000, shards_quick=8, shards_thorough=16, crash_is_violation=True, timeout_quick=400, timeout_thorough=7200, replay_tries=8)],
     ["a deleted topic's sessions are 'told' by {pres gone} on 'me' when the user has a session there; sessions not on 'me' are only detached"],
 )
